@@ -3,6 +3,7 @@ import os
 
 import c04_api
 import c19
+import x06en
 import x06fe
 import x06rl
 import serve_common as sc
@@ -46,3 +47,8 @@ def run(ctx, replay):
     # HTTP-level ones (fe/*) are drift here
     x06fe.ONLY = ("c06/",)
     x06fe.run_tier(ctx)
+    # the same Serve.tla histories through the REAL UDP and TCP listeners, consecutive packets on ONE transport slab
+    # (ServeEngine.tla): what a previous query left in the job-owned edns writer slot, in the TX region a TCP rejection is
+    # stamped into, in the stored bytes of a cache entry; the tier's C05 class (engine entry == decoded entry) is drift here
+    x06en.ONLY = "C06"
+    x06en.run_tier(ctx)
